@@ -247,6 +247,30 @@ Theorem C15_cutoff_conflict_refuted_strings :
   resolve_string fo0 (S "{[#B][#A]}.{#A=F/[$],#B=[$]/C(/Cl)=C(/Br)I}") = Err EValue.
 Proof. exact cutoff_conflict_refuted_strings. Qed.
 
+(** ---- the generator's ground truth and its `unambiguous` filter, as a predicate on the molecule the step receives
+    ([marks_ok g ms]: the step succeeds and every (tagged neighbour, anchor) it pairs up is an intended mark carrying the
+    token of its own bond).  Then every stored class is the one PREDICTED from the sides of the two substituents
+    (cis = same side) and the key/written order: the ground truth outside the classes, its negation inside. *)
+Theorem C15_class_predicted : forall ms x y mx my, s_lig x <> s_anc x ->
+  sub_mark ms x = Some mx -> sub_mark ms y = Some my ->
+  s_tok x = tok_of (m_up mx) (m_wb mx) -> s_tok y = tok_of (m_up my) (m_wb my) ->
+  pair_result (x, y) = Some (class_val (predicted_cis mx my)).
+Proof. exact class_predicted. Qed.
+Theorem C15_marks_ok_predicts : forall g g' ms, wf_graph g -> marks_ok g ms = true -> annotate_ez_isomers_cgsmiles g = Ok g' ->
+  forall k v, is_new g g' k v ->
+  exists x y mx my, sub_mark ms x = Some mx /\ sub_mark ms y = Some my /\
+    (v = ez_tuple (s_lig x) (s_anc x) (s_anc y) (s_lig y) (class_val (predicted_cis mx my)) \/
+     v = ez_tuple (s_lig y) (s_anc y) (s_anc x) (s_lig x) (class_val (predicted_cis mx my))).
+Proof. exact marks_ok_predicts. Qed.
+Example C15_marks_nonvacuous :
+  (* F/C(Cl)=[$] + [$]=C(Br)/I: F below (written before its anchor), I above (written after) *)
+  let msAB := [{| m_lig := 0; m_anc := 1; m_up := false; m_wb := true |}; {| m_lig := 5; m_anc := 3; m_up := true; m_wb := false |}] in
+  let msBA := [{| m_lig := 3; m_anc := 4; m_up := false; m_wb := true |}; {| m_lig := 2; m_anc := 0; m_up := true; m_wb := false |}] in
+  marks_ok w_AB msAB = true /\ marks_ok w_BA msBA = true /\
+  predicted_cis {| m_lig := 0; m_anc := 1; m_up := false; m_wb := true |} {| m_lig := 5; m_anc := 3; m_up := true; m_wb := false |} = false /\
+  predicted_cis {| m_lig := 2; m_anc := 0; m_up := true; m_wb := false |} {| m_lig := 3; m_anc := 4; m_up := false; m_wb := true |} = true.
+Proof. cbv zeta. repeat split; vm_compute; reflexivity. Qed.
+
 (** non-vacuity: a well-formed molecule with marks on which the step succeeds and stores two tuples;
     two pairs of two variants that satisfy the hypotheses of the partial theorem *)
 Example C15_nonvacuous :
@@ -306,6 +330,8 @@ Print Assumptions C15_returned_symmetric.
 Print Assumptions C15_returned_class_of_pair.
 Print Assumptions C15_returned_chiral.
 Print Assumptions C15_chiral_reaches_returned_graph.
+Print Assumptions C15_class_predicted.
+Print Assumptions C15_marks_ok_predicts.
 Print Assumptions C15_resolve_string_is_step.
 Print Assumptions C15_string_refs_valid.
 Print Assumptions C15_order_refuted_strings.
